@@ -65,6 +65,10 @@ def dataset_specs(tier):
             fam = "all" if (not quick or g == 4 or len(p) != 3) else "direct"
             for mode in MODES:
                 out.append((("craft", g, p, mode), fam))
+    # solution lengths across the 127/128 and 255/256 boundaries
+    out.append((("long", 12, (127, 128, 129, 144), "no_generation_meta"), "all"))
+    out.append((("long", 12, (3, 144, 2), "no_generation_meta"), "direct"))
+    out.append((("long", 17, (255, 256, 257, 289), "no_generation_meta"), "all" if not quick else "direct"))
     return out
 
 
@@ -77,7 +81,7 @@ def thresholds_for(n):
 
 
 def cases_for(dspec, family="all"):
-    n = dspec[3] if dspec[0] == "gen" else len(dspec[2])
+    n = dspec[3] if dspec[0] == "gen" else len(dspec[2])  # ("craft", g, pattern, mode) / ("long", g, lengths, mode): one maze per entry
     fmts = [("direct", f) for f in DIRECT_FORMATS] + ([("thr", t) for t in thresholds_for(n)] if family == "all" else [])
     return [(dspec, f, tr) for f in fmts for tr in ("memory", "file")]
 
@@ -135,6 +139,18 @@ def build(dspec):
         elif mode == "collected_meta":
             ds = ds.filter_by.collect_generation_meta()
         return ds, ref
+    if dspec[0] == "long":
+        # serpentine corridor mazes whose stored solutions have lengths around 128 / 256 cells (narrow integer types in a format)
+        _, g, ks, mode = dspec
+        cl = np.zeros((2, g, g), dtype=bool)
+        cl[1, :, : g - 1] = True
+        for i in range(g - 1):
+            cl[0, i, g - 1 if i % 2 == 0 else 0] = True
+        snake = []
+        for i in range(g):
+            snake += [(i, j) for j in (range(g) if i % 2 == 0 else range(g - 1, -1, -1))]
+        mazes = [SolvedMaze(connection_list=cl.copy(), solution=np.array(snake[:k]), generation_meta=None) for k in ks]
+        return MazeDataset(MazeDatasetConfig(name="long", grid_n=g, n_mazes=len(ks), seed=5), mazes), None
     if dspec[0] == "empty":
         return MazeDataset(MazeDatasetConfig(name="empty", grid_n=dspec[1], n_mazes=0, seed=3), []), None
     _, g, pat, mode = dspec
@@ -374,7 +390,7 @@ def run_case(case, tmpdir, res):
         MD.set_serialize_minimal_threshold(old_thr)
         if os.path.exists(path):
             os.remove(path)
-    judge_dataset(loaded, ds, snap, cfg_before, ref, res, f"C05|{chosen}|{transport}|{mode}", what, rd)
+    judge_dataset(loaded, ds, snap, cfg_before, ref, res, f"C05|{chosen}|{transport}|{mode}" + ("|solution_len>=128" if max(lens, default=0) >= 128 else ""), what, rd)
     res.count("cases_" + transport)
     res.count("cases_" + ("threshold" if fmt[0] == "thr" else "direct"))
     if ds.generation_metadata_collected is not None:
